@@ -9,7 +9,8 @@ from engine.threadsym.bmc import BW
 PID = 'C03'
 LEVEL = 'model_checking'
 TARGETS = sched.TARGETS
-ASSUMPTIONS = sched.ASSUMPTIONS + ['initial environment: every task absent, or present with status DONE / FAILED / SKIPPED, arbitrary result '
+ASSUMPTIONS = sched.ASSUMPTIONS + ['initial environment: every task absent, or present with status DONE / FAILED / SKIPPED (left by earlier runs) or WAITING / '
+                                   'PENDING (left by a run that was killed; configurations of the quick set only, in both tiers), arbitrary result '
                                    'and arbitrary earlier clocks (solver-chosen)',
                                    'a scheduler object used before: covered by induction -- every terminated run is shown to leave the work queue '
                                    'empty with no unfinished task, which is the state each analysed call starts from',
@@ -129,6 +130,11 @@ def replay_kwargs(extra):
 
 
 def _job(n, hard, soft, w, tier, seed=0):
+    # the wider initial-environment alphabet (WAITING / PENDING leftovers) is used for the configurations of the quick set, in both
+    # tiers; the other configurations of the thorough tier keep DONE / FAILED / SKIPPED leftovers, with which they were measured to be
+    # conclusive (a check that may end inconclusive on the unchanged tree is not registered)
+    global LEFTOVERS
+    LEFTOVERS = sched.cfg_name(Config(n, hard, soft, w)) in {j[0] for j in jobs('quick')}
     return run_job(Config(n, hard, soft, w), prop, tier, seed)
 
 
